@@ -4,7 +4,7 @@ from mc.patterns import pat, P, H, obs_of
 from models import hashes, macs, selfcheck
 
 PROPERTY_ID = "C16"
-RULE = ("the same program set is executed by executors compiled for baseline x86-64 (SSE2), +sse4.1, +avx and +avx2, every observation is compared with the reference "
+RULE = ("the same program set is executed by executors compiled for baseline x86-64 (SSE2), +sse4.1, +avx, +avx2 and target-cpu=native (every extension of the host CPU, here incl. AVX-512), every observation is compared with the reference "
         "model and the ordered transcripts of all builds must be identical shard by shard. Workload: SHA-224/256 with prefix chunk {0,1,63} bytes then one update of "
         "k blocks (k = 1..=20, +0/+1 trailing bytes) from a buffer at every byte offset 0..=31 (quick: offsets {0,1,4,8,16,31}, k in {1,3,4,5,8,9,12,20}), and two "
         "consecutive multi-block updates; BLAKE2b/s keyed/unkeyed x outlen {1,32,max} x lengths {0,1,B-1,B,B+1,2B,2B+1,5B} x offsets; the complete C03 grid (SSE2 "
@@ -12,7 +12,7 @@ RULE = ("the same program set is executed by executors compiled for baseline x86
         "counts are summed over the builds; distinct = program text")
 ASSUMPTIONS = ["reference models as in C01, C03, C08, C10, C11", "only x86-64 feature sets the host CPU has are built; the aarch64 path is not buildable here"]
 
-BUILDS = ["rel", "sse41", "avx", "avx2"]
+BUILDS = ["rel", "sse41", "avx", "avx2", "native"]
 
 
 def builds_needed(tier):
